@@ -64,6 +64,20 @@ def run(ctx):
                 extra.append({"seed": ctx.seed, "jitter": 0.0, "payloads": {"f": {"flavour": "threading"}, "h1": {"flavour": "threading"}, "a1": {"flavour": "asyncio", "cleanup": 1}, "late": {"flavour": late, "cleanup": 1}},
                               "script": [{"op": "adopt", "p": "a1"}, {"op": "adopt", "p": "f"}, {"op": "adopt", "p": "h1"}, {"op": "accept"}, {"op": "wait_running"}, {"op": "wait_start", "p": "a1"}, {"op": "wait_start", "p": "f"}, {"op": "wait_start", "p": "h1"}]
                               + trig + [{"op": "sleep", "ms": 30}, {"op": "adopt", "p": "late", "ctx": ctxl}, {"op": "wait_end"}], "shape": "targeted-late-adopt"})
+    for trig in ([{"op": "end", "p": "f", "how": "exc:UserExc"}], [{"op": "sigint"}], [{"op": "shutdown", "ctx": "thread", "wait": False}]):
+        # the trigger arrives while a trio payload is inside a blocking execute() into asyncio
+        # (the trio thread waits for the loop thread: closing must not make the loop thread wait
+        # for the trio thread)
+        extra.append({"seed": ctx.seed, "jitter": 0.0, "timeout": 10, "payloads": {"f": {"flavour": "threading"}, "t1": {"flavour": "trio", "cleanup": 1}, "a1": {"flavour": "asyncio", "cleanup": 1}, "x1p": {"flavour": "asyncio"}},
+                      "script": [{"op": "adopt", "p": "t1"}, {"op": "adopt", "p": "a1"}, {"op": "adopt", "p": "f"}, {"op": "accept"}, {"op": "wait_running"}, {"op": "wait_start", "p": "t1"}, {"op": "wait_start", "p": "a1"}, {"op": "wait_start", "p": "f"},
+                                 {"op": "execute", "p": "x1p", "ctx": "payload:t1", "how": "val:x", "slow": 0.5, "wait": False}] + trig + [{"op": "wait_end"}], "shape": "targeted-trigger-during-execute"})
+        # trio payloads adopted from INSIDE the trio thread (another submission path) must be
+        # cancelled by an outside trigger like all others
+        for late_cleanup in (0, 1):
+            extra.append({"seed": ctx.seed, "jitter": 0.0, "payloads": {"f": {"flavour": "threading"}, "t1": {"flavour": "trio", "cleanup": 1}, "late": {"flavour": "trio", "cleanup": late_cleanup, "shielded": late_cleanup}, "late2": {"flavour": "trio"}},
+                          "script": [{"op": "adopt", "p": "t1"}, {"op": "adopt", "p": "f"}, {"op": "accept"}, {"op": "wait_running"}, {"op": "wait_start", "p": "t1"}, {"op": "wait_start", "p": "f"},
+                                     {"op": "adopt", "p": "late", "ctx": "payload:t1"}, {"op": "wait_start", "p": "late"}, {"op": "adopt", "p": "late2", "ctx": "payload:late"}, {"op": "wait_start", "p": "late2"}, {"op": "step", "p": "late"}]
+                          + trig + [{"op": "wait_end"}], "shape": "targeted-nested-trio-adopt-then-trigger"})
     first = True
     for allow, ss in groups.items():
         # (one family per environment switch setting; results accumulate in ctx)
